@@ -143,6 +143,9 @@ SCENARIOS = [
     ("altrow-writes-vs-reads-other-bank", (1, [1, 2, 3]), (0, 1)),
     ("samerow-reads-vs-writes-other-bank", (0, [4]), (1, 1)),
     ("samerow-writes-vs-reads-other-bank", (1, [5]), (0, 1)),
+    # the same two without refresh and with tCCD = 2 controller cycles: only the anti-starvation timers can turn the bus around
+    ("samerow-reads-vs-writes-other-bank-norefresh-tccd2", (0, [4]), (1, 1), dict(no_refresh=True, tccd=2)),
+    ("samerow-writes-vs-reads-other-bank-norefresh-tccd2", (1, [5]), (0, 1), dict(no_refresh=True, tccd=2)),
 ]
 
 
@@ -151,7 +154,8 @@ def adversary_job(args):
     commands on another bank.  Every victim latency (offer->accept, accept->strobe) must stay within Bound(cfg)."""
     from migen import run_simulation
     seed, k = args
-    name, (awe, arows), (vwe, vbank) = SCENARIOS[k]
+    name, (awe, arows), (vwe, vbank) = SCENARIOS[k][:3]
+    opts = SCENARIOS[k][3] if len(SCENARIOS[k]) > 3 else {}
     rnd = random.Random("c05-adv-%d-%d" % (seed, k))
     while True:
         cfg = corelib.rand_core_cfg(rnd)
@@ -160,6 +164,10 @@ def adversary_job(args):
     cfg["nmasters"] = 2; cfg["bba"] = 0; cfg["bankbits"] = 1
     cfg["ctrl"].update(read_time=8, write_time=8, cmd_buffer_depth=rnd.choice([2, 4]), refresh_postponing=1, with_refresh=True, with_auto_precharge=True)
     cfg["timing"].update(tRFC=4, tFAW=None, tRC=None, tRAS=None, tZQCS=None, tREFI=100)
+    if opts.get("no_refresh"):
+        cfg["ctrl"]["with_refresh"] = False
+    if opts.get("tccd"):
+        cfg["timing"]["tCCD"] = opts["tccd"]
     B = latency_bound(cfg)
     N = 3 * B
     dut = corelib.build_core(cfg)
